@@ -4,6 +4,7 @@ import (
 	"bytes"
 	"fmt"
 	"unicode"
+	"unicode/utf8"
 
 	"github.com/cloudspannerecosystem/memefish/char"
 )
@@ -74,7 +75,15 @@ func QuoteSQLIdent(s string) string {
 }
 
 func quoteSQLStringContent(s string, quote rune, buf *bytes.Buffer) {
-	for _, r := range s {
+	for i := 0; i < len(s); {
+		r, size := utf8.DecodeRuneInString(s[i:])
+		if r == utf8.RuneError && size == 1 {
+			// A byte that is not part of a valid UTF-8 sequence must survive as that byte.
+			fmt.Fprintf(buf, `\x%02x`, s[i])
+			i++
+			continue
+		}
+		i += size
 		q := quoteSingleEscape(r, quote /* isString */, true)
 		if q != "" {
 			buf.WriteString(q)
